@@ -12,8 +12,9 @@ Ord312 == <<2, 0, 1>>
 Ord321 == <<2, 1, 0>>
 AllF == SUBSET Assign
 Perms == {p \in [1 .. NV -> Vars] : \A i, j \in 1 .. NV : i # j => p[i] # p[j]}
-Init == f \in AllF
-Next == UNCHANGED f
+(* the lattice of subsets is walked one element at a time so that TLC's workers share the invariant evaluations *)
+Init == f = {}
+Next == \E a \in Assign : f' = f \cup {a}
 Spec == Init /\ [][Next]_f
 (* one initial state per f: the quantification over (g, h) is evaluated inside the invariant *)
 KeySound == \A g \in AllF, h \in AllF : KeySoundFor(f, g, h) /\ KeyStandardFor(f, g, h)
